@@ -58,11 +58,12 @@ impl LdpcDecoder for ScriptedDec {
         // randomised delay (perturbs the arrival order of worker results)
         let mut r = Rng::new(self.seed, id);
         // seed u64::MAX = no delay at all: the workers then produce results far faster than the collector (which sends a report per frame) consumes them
-        if self.seed != u64::MAX {
+        // seed u64::MAX - 1 = no delay and EVERY frame has exactly one bit error (each point then stops after exactly `target` frames)
+        if self.seed < u64::MAX - 1 {
             std::thread::sleep(Duration::from_micros(r.below(300) as u64));
         }
         let mut cw: Vec<u8> = llrs.iter().map(|&x| (x <= 0.0) as u8).collect();
-        let nerr = ((id % 4) as usize).min(self.k);
+        let nerr = if self.seed == u64::MAX - 1 { 1 } else { ((id % 4) as usize).min(self.k) };
         for b in cw.iter_mut().take(nerr) {
             *b ^= 1;
         }
@@ -146,7 +147,8 @@ pub fn run(ctx: &mut Ctx, _replay: Option<&[String]>) {
     let ebn0s: [f32; 2] = [60.0, 61.0];
     for &w in &workers_list {
         let nw = set_workers(w);
-        for &target in &[1u64, 3, 20] {
+        // target 0: the required number of frame errors is collected before any frame -- every point reports the empty set of frames
+        for &target in &[1u64, 3, 20, 0] {
             for &bch in &[0u64, 1, 2] {
                 for rep in 0..ctx.scale(2, 40) {
                     let modulation = if rng.chance(1, 2) { Modulation::Bpsk } else { Modulation::Psk8 };
@@ -197,6 +199,43 @@ pub fn run(ctx: &mut Ctx, _replay: Option<&[String]>) {
                         &[tagw.as_str(), if bch > 0 { "with-outer-code-threshold" } else { "no-outer-code" }]);
                 }
             }
+        }
+    }
+    // reporter with a LONG interval (no periodic report ever fires) on runs of three points in which every frame is a frame error, so that
+    // every point stops after exactly `target` frames: the reporter must receive exactly one Statistics per point -- the returned one --
+    // and then Finished
+    for &w in &[1usize, 4] {
+        let nw = set_workers(w);
+        for &target in &[1u64, 2, 5] {
+            let fac = Scripted {
+                counter: Arc::new(AtomicU64::new(0)), log: Arc::new(Mutex::new(Vec::new())), log_limit: 0,
+                panic_every: 0, built: Arc::new(AtomicU64::new(0)), seed: u64::MAX - 1, seq: false,
+            };
+            let (tx, rx) = mpsc::channel();
+            let h2 = h.clone();
+            let out = with_watchdog(move || {
+                let t = BerTestBuilder {
+                    h: h2, decoder_implementation: fac, modulation: Modulation::Bpsk, puncturing_pattern: None,
+                    interleaving_columns: None, max_frame_errors: target, max_iterations: 9, ebn0s_db: &[60.0, 61.0, 62.0],
+                    reporter: Some(Reporter { tx, interval: Duration::from_secs(3600) }), bch_max_errors: 0,
+                }.build().unwrap();
+                match t.run() {
+                    Ok(stats) => {
+                        let mut toks = Vec::new();
+                        for r in rx.try_iter() {
+                            match r {
+                                Report::Finished => toks.push("FIN".to_string()),
+                                Report::Statistics(s) => toks.push(format!("{}@{}", stat_token("R", 0, &s), hx(s.ebn0_db as f64))),
+                            }
+                        }
+                        toks.push("|".to_string());
+                        for s in stats.iter() { toks.push(format!("{}@{}", stat_token("R", 0, s), hx(s.ebn0_db as f64))); }
+                        toks.join(" ")
+                    }
+                    Err(_) => "err".to_string(),
+                }
+            }, 60);
+            ctx.emit(&format!("c13 sparse {} {} 3 {}", k, target, nw), &out, true, &["long-interval-reporter-three-points-all-frames-in-error"]);
         }
     }
     // sequential runs: ONE worker and ONE Eb/N0 point, so the frames are consumed in id order 1, 2, 3, ... and the model can replay them
